@@ -82,7 +82,7 @@ fn build(tier: Tier) -> Box<dyn Check> {
     let mains = m.seq_range(1, 2);
     let f1 = bodies.product(&mains, |b, m| program(&b, &m));
     let f2 = b.seq_range(1, 1).product(&m.seq_range(3, 3), |b, m| program(&b, &m));
-    Box::new(C05 { fams: vec![("body x caller".into(), f1), ("one-statement body x 3 caller statements".into(), f2)] })
+    Box::new(C05 { fams: vec![("body x caller".into(), f1), ("one-statement body x 3 caller statements".into(), f2), ("thresholds".into(), Space::of(super::scale::programs()))] })
 }
 
 impl Check for C05 {
@@ -95,7 +95,8 @@ impl Check for C05 {
     fn run_case(&self, fam: usize, idx: u64, ctx: &mut Ctx) {
         let text = self.fams[fam].1.get(idx);
         ctx.case_text(&text);
-        let (j, _) = judge(&text, b"", &JudgeOpts::default(), ctx);
+        let opts = JudgeOpts { limits: crate::refmodel::interp::Limits { steps: 400_000, depth: 150 }, ..Default::default() };
+        let (j, _) = judge(&text, b"", &opts, ctx);
         if let Judged::Agree | Judged::Violation = j {
             ctx.nontrivial();
         }
